@@ -9,11 +9,20 @@ loop's transaction-id variables after every step and evaluates NoLocalLoss on th
 The named deviation (commit between an empty LS write transaction and env.Info()) is a known finding:
 TLC's counterexample is replayed on the real code.
 """
-import loopx
+import loopx, proto, vlib
 
 
 def run(c):
     loopx.run_suite(c, 'C03')
+    # protocol level with the tomb sweeper configured (stale-marker rule of Merge): an LS step may only
+    # replace a stored version by one that wins against it
+    thorough = c.tier == 'thorough'
+    behs = proto.simulate(c, 'LSProtocol_native_cut.cfg', 3000 if thorough else 400, 14)
+    res = proto.replay(c, behs, True, 1, [1, 2], drain=False, sweeper_cut=True)
+    proto.absorb_filtered(c, res, 'C03')
+    behs = proto.simulate(c, 'LSProtocol_shadow_f3.cfg', 2000 if thorough else 300, 14)
+    res = proto.replay(c, behs, False, 1, [1, 2], drain=False)
+    proto.absorb_filtered(c, res, 'C03')
     c.assumptions += ['"running" starts after the start-up capture; changes made while LS is down are stamped 1 ns (documented)',
                       'shadow mode sees net changes between two LS transactions', 'one instance + environment; one key (quick)']
     c.extra['rule'] = 'simulated behaviours of LSLoop (deduplicated) replayed through the real sync loop; distinct = behaviours longer than 6 steps'
